@@ -51,6 +51,16 @@ def run_one(cfg, chooser, max_steps=6000):
             if cfg.get('source_raises_at') is not None and self.next == cfg['source_raises_at']:
                 self.next += 1
                 log.append(('source_raise', self.next - 1))
+                kind = cfg.get('source_raise_kind', 'boom')
+                if kind == 'stopiteration':
+                    # an exhausted iterator inside the source (next() on an empty result set): since PEP 479 this
+                    # surfaces as RuntimeError('generator raised StopIteration') whose cause is the StopIteration
+                    next(iter(()))
+                if kind == 'chained':
+                    try:
+                        next(iter(()))
+                    except StopIteration as stop:
+                        raise Boom('source') from stop
                 raise Boom('source')
             if cfg.get('dynamic') and self.next >= state['available'] and self.next < self.limit:
                 # like the URL table: further items only exist once earlier ones have been processed
@@ -228,7 +238,8 @@ def judge(obs, part, replay):
         return
     part.count('process_returned')
     if raised:
-        if not obs['main_exception'] or 'Boom' not in obs['main_exception']:
+        expected = 'RuntimeError' if cfg.get('source_raise_kind') == 'stopiteration' and any(e[0] == 'source_raise' for e in log) else 'Boom'
+        if not obs['main_exception'] or expected not in obs['main_exception']:
             part.violation('exception-not-surfaced/' + ('task' if any(e[0] == 'task_raise' for e in log) else 'source'),
                            {'cfg': cfg, 'main_exception': obs['main_exception']}, replay)
         else:
@@ -314,6 +325,7 @@ def gen_cfg(rng, small):
         cfg['task_raises'] = [rng.randrange(tasks), rng.randrange(items)]
     elif r < 0.6:
         cfg['source_raises_at'] = rng.randrange(items + 1)
+        cfg['source_raise_kind'] = rng.choice(['boom', 'boom', 'stopiteration', 'chained'])
     if not cfg.get('stop') and not cfg.get('task_raises') and cfg.get('source_raises_at') is None and not cfg.get('dynamic') \
             and rng.random() < 0.25:
         cfg['more_runs'] = rng.choice([1, 1, 2])
@@ -355,6 +367,8 @@ DIRECTED = [
     {'items': 3, 'tasks': 2, 'conc': 3, 'task_raises': [1, 0], 'changes': [0]},
     {'items': 2, 'tasks': 1, 'conc': 2, 'task_raises': [0, 0], 'changes': [1, 0]},
     {'items': 3, 'tasks': 2, 'conc': 2, 'stop': True, 'task_raises': [1, 0]},
+    {'items': 2, 'tasks': 1, 'conc': 2, 'source_raises_at': 1, 'source_raise_kind': 'stopiteration'},
+    {'items': 1, 'tasks': 1, 'conc': 1, 'source_raises_at': 0, 'source_raise_kind': 'chained'},
 ]
 
 
